@@ -44,6 +44,10 @@ def run(tier="quick"):
     nbl = LR.check_dup_backlinks(chk, prog, only={f.name for f in LR.iface_functions(prog, "vector", with_parent=True)})
     nlen = sum(LR.check_len_on_remove(chk, prog, u, only=names) for u in ("linked_list.c", "dlinked_list.c"))
     nf, nund, samples = C02.cap_array(chk, prog, fns)
+    # Q1 bisection loops are left only through their condition or a match
+    nqf, nundq = LR.check_bisection(chk, prog, fns, NORETURN, "Q1")
+    chk.count("bisection_functions", nqf, floor=1)
+    nund += nundq
     C02.init_diag(chk, prog, UNITS, only=names)
     chk.count("vector_functions", len(fns), floor=18)
     chk.count("ordering_decisions", nord, floor=9)
